@@ -67,6 +67,23 @@ CHECKS = {
                      'CrossHair/z3 proves on all paths that the emitted stream equals a reference interpreter, that assign adds exactly the named keys and shares every other '
                      'object, that caller records are unchanged, that sinks see every record once and are closed once also when the stream faults, and that key sets are '
                      'rejected at build time iff the reference predicate says so. Bounded: sequences <=2 (quick) / <=3 (thorough) operators, <=3 records.'),
+    'C03': dict(engine='xh', level='other', design_ref='DESIGN.md#c03',
+                text='Sequential execution strategies only: the fluent fused transform, every 2-way (3-way) split into a chain of named transforms, stage-by-stage execution of '
+                     'named_transforms() and the same-name fused chain are run with CrossHair on symbolic sources (length, offset, operator constants symbolic) and must emit the same '
+                     'batches and aggregate; a source split into k shards (k<=3 quick / 4 thorough, read-ahead 2 and default) concatenated in shard order and merged (three merge '
+                     'entry points, strict_states_cnt=k) must equal the whole-source run; num_threads=0 equals the default. Threaded strategies (num_threads>0, in-process '
+                     'iterate) are NOT decided here: the queue/multiplex layer they are built from is model-checked in C04/C13.'),
+    'C06': dict(engine='xh', level='other', design_ref='DESIGN.md#c06',
+                text='Task path only (orchestrate.as_completed on the real WorkerPool/Worker/CourierClient/Task/WorkerRegistry over a fake single-threaded transport with a virtual '
+                     'clock). The fault schedule (outcome of the i-th call of each worker: ok / deadline / application error / host death / death+rejoin) is symbolic and explored '
+                     'exhaustively by CrossHair per configuration: no result doubled or invented, nothing missing on normal return, exactly-once while one worker never died, '
+                     'application errors surface unless ignore_failures, all workers released on return and on raise. The shard/generator path (asyncio + RPC transport not '
+                     'installed) is NOT decided: "every shard state merged exactly once" and "every output batch at least once" are not claimed.'),
+    'C16': dict(engine='xh', level='other', design_ref='DESIGN.md#c16',
+                text='Only the merge layer that distributed execution relies on: merge_states of TransformRunner/ChainedRunner (plain and AGGREGATE mode) with symbolic number of '
+                     'arriving states m and expected count c raises ValueError iff c != 0 and m != c and otherwise folds every state exactly once; merged shard states (k<=3/4), '
+                     'sliced aggregates and two aggregating stages give the single-process result through get_result. The equivalence clauses that need the worker pool, remote '
+                     'queues and the asyncio/courier transport (multiset of output batches, exactly one final result message) are NOT decided.'),
     'C17': dict(engine='xh', level='other', design_ref='DESIGN.md#c17',
                 text='LruCache as one inductive step from an arbitrary valid state (keys/recency/counters symbolic) against a reference model incl. the representation invariant, '
                      'bounded histories with clear; lazy expression skeletons (<=2-3 productions) with symbolic integer leaves and symbolic cache/lazy flags: materialised value == eager '
@@ -101,7 +118,10 @@ CHECKS = {
                      'locked after the pool-level operations returned. Termination of blocking acquisition is outside the claim (deadlock observed, DESIGN.md). (b) sequential '
                      'register/refresh/unregister/heartbeat histories of the registry and the liveness predicate with CrossHair.'),
 }
-NA = {}
+NA = {'C14': 'Solver-based checking cannot reach it: the deciding mechanism is a cloudpickle round trip (C boundary: every symbolic value is realised at pickle.dumps) through a '
+            'courier RPC transport that is not installed in the sandbox (the installed `courier` distribution has no Client/Server), driven by server threads and an '
+            'asyncio loop. What would remain symbolic is only the expression structure, i.e. enumeration under another name. The pure lazy-expression semantics that C14 '
+            'builds on (evaluate == eager, caching, handles, same-process pickling) are decided in C17; the prefetch/batch protocol of remote iterators in C15.'}
 PENDING = 'check not built yet (see DESIGN.md build order)'
 
 m = {
